@@ -136,6 +136,10 @@ fn filter_shapes(shown_df: &str, shown: u32, pi_bits: u32) -> (Vec<(String, Opti
         acfs.push((format!("four#{i}"), Some(l)));
     }
     let mut dffs = dffs;
+    // the filter holds the texts the user gave: a different spelling of the number is a different text
+    dffs.push(("zero-padded".to_string(), Some(vec![format!("0{shown_df}")])));
+    dffs.push(("with-space".to_string(), Some(vec![format!("{shown_df} ")])));
+    dffs.push(("prefix-of-shown".to_string(), Some(vec![shown_df[..shown_df.len() - 1].to_string(), format!("{shown_df}0")])));
     dffs.push(("unsorted-with-shown".to_string(), Some(vec!["21".to_string(), shown_df.to_string(), "0".to_string(), "5".to_string()])));
     (dffs, acfs)
 }
@@ -204,7 +208,7 @@ pub fn run(ctx: &Ctx, rep: &Report) {
     rep.nontriv(nontriv);
     rep.state(recs.len() as u64 * 2);
     rep.part("filters", cases, json!({"records": recs.len(), "addresses": addrs.len()}));
-    rep.set_bound(&format!("{} record kinds x {} addresses x decoded/undecoded x 8 df-filter shapes x 25 aircraft-filter shapes (incl. lists of 3 in all 6 orders)", recs.len() / addrs.len(), addrs.len()));
+    rep.set_bound(&format!("{} record kinds x {} addresses x decoded/undecoded x 11 df-filter shapes x 25 aircraft-filter shapes (incl. lists of 3 in all 6 orders)", recs.len() / addrs.len(), addrs.len()));
     rep.assume("filter lists are judged by membership only (order and duplicates are not part of the property)");
 }
 
